@@ -1,12 +1,19 @@
 """C05 — inverted conditionals obey Bayes' theorem and abduction deduces through them."""
 from .. import gen as G
 from .common import TRUSTED, ASSUMPTIONS, default_nontrivial, LEVEL_NOTE, TECHNIQUE
+from .C04 import zb_simplex, zb_dist, zb_cond, hot_cases
 
 LEVEL = "proof"
-THEOREMS = ['C05_refines', 'C05_bayes', 'C05_wf', 'C05_u_bound', 'C05_irrelevant', 'C05_zero_column', 'C05_abduce_eq', 'C05_abduce_wf', 'C05_abduce_base_rate', 'C05_abduce_projection', 'C05_abduce_none_iff']
+THEOREMS = ['C05_refines', 'C05_bayes', 'C05_wf', 'C05_u_bound', 'C05_irrelevant', 'C05_zero_column', 'C05_abduce_eq', 'C05_abduce_wf', 'C05_abduce_base_rate', 'C05_abduce_projection', 'C05_abduce_none_iff', 'C05_masses_nonneg_gen', 'C05_abduce_masses_nonneg_gen', 'C05_abduce_masses_nonneg_fin']
 RULE = ("inverse / abduce / abduce_with on conditional tables (vacuous, dogmatic, partially informative, zero-likelihood columns, "
         "irrelevant outcomes) x strictly positive base rates (incl. base rates on Y inside the zero-tolerance band (0,eps]); |X|,|Y| in 2..3 (also 4x2); dyadic grids; families A/M/D/N, "
-        "&Simplex / OpinionRef / &Opinion; f32+f64. non-trivial = value returned")
+        "&Simplex / OpinionRef / &Opinion; f32+f64. Variant token `acc` (added with repair 9ec2d8b): the harness appends whether "
+        "Simplex::try_new accepts EVERY inverted conditional (inverse) resp. Opinion::try_new accepts the abduced opinion; required "
+        "(clauses C05.inverse_accepted_by_constructor, C05.abduce_accepted_by_constructor) whenever conditionals, base rates (a_X strictly "
+        "positive) and the observation are EXACTLY well-formed as rationals; |X|, |Y| <= 4, far below the sizes (9+ cells) at which the "
+        "validators' own re-summation residue could leave the 4-ulp band. Streams: zero-biased small grids (denominators 4, 8, 16; "
+        "|X|, |Y| in 2..3; random supports; absolute / vacuous / uncertain observations; zero entries in a_Y), 2500 per precision in the "
+        "quick tier, and the replay list gen/corpus/clamp_hot.txt (see C04). non-trivial = value returned")
 EXHAUSTIVE = {}
 nontrivial = default_nontrivial
 LEVEL_TEXT = ("Theorems over the exact model: inverted conditionals are well-formed, their projection is the Bayes posterior, their "
@@ -40,8 +47,42 @@ def table(rng, n, m, den):
     return conds
 
 
+def acc_case(rng, fmt):
+    """inverse / abduce / abduce_with with the `acc` token on small grids (denominators 4, 8, 16; |X|, |Y| in 2..3): base rate on X
+    strictly positive (the operators' domain).  An inverted belief mass b(x|y) = a(x) (L(y,x) - u) is EXACTLY zero for the x that
+    attains the smallest likelihood ratio whenever the factor (wprop + irrelevance - wprop * irrelevance) is 1, which is the case
+    when every P(y|x) is positive (wprop = 1): half of the cases use uncertain conditionals (u > 0) under a strictly positive base
+    rate on Y; the other half is zero-biased (random supports, zero entries in a_Y, absolute / vacuous / uncertain observations)."""
+    den = rng.choice([4, 4, 8, 8, 16])
+    n, m = rng.choice([2, 2, 3]), rng.choice([2, 3, 3])
+    ax = zb_dist(rng, n, den, positive=True)
+    if rng.random() < 0.5:
+        conds = []
+        for _x in range(n):
+            cb, cu = zb_simplex(rng, m, den, "unc")
+            conds += cb + [cu]
+        ay = zb_dist(rng, m, den, positive=True)
+    else:
+        conds = zb_cond(rng, n, m, den)
+        ay = zb_dist(rng, m, den, positive=rng.random() < 0.5)
+    fam = rng.choice(G.FAMS_1D)
+    r = rng.random()
+    if r < 0.3:
+        return G.line("inverse", fmt, fam + "." + rng.choice(["o", "r"]) + ".acc", [n, m], conds + ax + ay)
+    sb, su = zb_simplex(rng, m, den, rng.choice([None, None, "unc", "unc", "vac", "abs"]))
+    aobs = zb_dist(rng, m, den)
+    var = fam + "." + rng.choice(["o.acc", "r.acc", "o.s.acc"])
+    if r < 0.55:
+        return G.line("abduce_with", fmt, var, [n, m], sb + [su] + aobs + conds + ax + ay)
+    return G.line("abduce", fmt, var, [n, m], sb + [su] + aobs + conds + ax)
+
+
 def cases(rng, tier):
     out = []
+    for fmt in ("f64", "f32"):
+        out += hot_cases(fmt, ("inverse", "abduce", "abduce_with"))
+        for _ in range(2500 if tier == "quick" else 60000):
+            out.append(acc_case(rng, fmt))
     for fmt in ("f64", "f32"):
         N = 1200 if tier == "quick" else 40000
         for _ in range(N):
